@@ -636,6 +636,11 @@ def rule_R6(ck):
         raise Unknown(f"'.include' handler: {ex}") from None
     ck.instance("include-call", {"compile_include called with": repr(ps[0].value[1]) if ps else None}, fn="metacommands::include")
     if not ps:
+        done = [p for p in all_ps if p.kind == "return"]
+        if done and len(done) == len(all_ps):
+            ck.violation("metacommands::include", f"'.include \"x.mac\"' with a readable file returns {done[0].value[0]!r} without ever calling compile_include: the included file contributes nothing "
+                                                  "(or its text instead of its code)", construct="include compiles the included file")
+            return
         return ck.incomplete("metacommands::include", "'.include \"x.mac\"' with a readable file (no path reaches compile_include)", all_ps)
     for p in ps:
         r, calls_, route_, opened = p.value
